@@ -526,3 +526,11 @@ Example C08_toy_blind :
 Proof.
   do 5 eexists. repeat (split; [vm_compute; reflexivity|]). vm_compute. reflexivity.
 Qed.
+
+(* The constants written in the model are the constants of the SOURCE: coq/Generated/SrcConsts.v is regenerated
+   from /repo/buidl/*.py by harness/gen_coq_consts.py on every run; the statements are spelled out in
+   Proofs/ConstsTie.v (secp256k1_is_source_stmt). *)
+From V Require Proofs.ConstsTie.
+Theorem C08_constants_match_source : ConstsTie.secp256k1_is_source_stmt.
+Proof. exact ConstsTie.secp256k1_is_source. Qed.
+Print Assumptions C08_constants_match_source.
